@@ -52,6 +52,18 @@ CHECKS = {
             "no wallet token on stdout, directory unchanged) or SERVED (JSON identical to the library API for the same inputs, reference "
             "paranoia filter, BIP44-shaped rows, pre-existing paths untouched); clearly good vectors must be served, clearly bad refused.",
             "DESIGN.md §4 C20", "in-process seam validated against real subprocess runs on a fixed subset each run"),
+    "C09": ("exploration", "E1 product",
+            "bounded exhaustive enumeration (all powers of two, all prefix bytes, all lengths 0..40) vs own curve arithmetic",
+            "Boundary scalars plus every power of two through every constructor and all four WIF flavours; every prefix byte 0..255 "
+            "over valid x in 33- and 65-byte form, x=0..64 classified by the reference lift_x, x>=p, off-curve y, every byte length "
+            "0..40; out-of-range scalars in int, bytes and WIF form must be refused by every constructor.",
+            "DESIGN.md §4 C09", "hybrid 06/07 encodings are judged for consistency only; 64-byte raw x||y (accepted by ecdsa) is outside the stated 0..40 range and only counted"),
+    "C05": ("exploration", "E1 product",
+            "bounded exhaustive enumeration (keys x networks x kinds; all hash input lengths 0..1024) vs independent decoders and OpenSSL RIPEMD-160",
+            "Each address produced by the wallet API / PublicKey.address for boundary keys (incl. points lifted from x with leading "
+            "zero bytes, both parities) on both networks is decoded with independent Base58Check/Bech32 decoders and compared with "
+            "hashes of hand-assembled script templates; RIPEMD-160/HASH160 compared with OpenSSL for every length 0..1024 x 4 patterns.",
+            "DESIGN.md §4 C05", ""),
 }
 
 NOT_YET = "check not built yet in this session (work in progress; see DESIGN.md §9 build order)"
